@@ -60,7 +60,7 @@ CHECKS = {
          "Trusts the hook's rune accounting and the 30-line folding/position model. Parse-error positions are covered only through the token positions they are built from.", "3/C05"),
  "C04": ("exhaustive enumeration of lexeme sequences, token edits, byte strings, nesting ladders and adversarial bindings with hook-enforced oracles",
          "Every concatenation of <=3 lexeme spellings (thorough: 77 spellings, and length 4 over a 48-spelling core) through ParseQuery/ParseStatement/ParseExpr; every single-token edit of every statement of the grammar model within 1 (2) deviations; every byte string of length <=2 and length-3 strings over 41 selected bytes; 17 nesting/length ladders up to n=1024 (4096); every value slot bound to 37 adversarial parameter values. Oracle: no panic, never (nil,nil), no read of an unfilled or overwritten slot of the two 3-slot pushback rings (verif hook at curr()/read()), token reads <= 40*(runes+8) (hook budget), and String()/Walk of any returned result do not panic.",
-         "Random / coverage-guided generation (named in the property's quantifier) is another family and not attempted; linearity is measured in scanner calls, not time.", "3/C04"),
+         "Random / coverage-guided generation (named in the property's quantifier) is another family and not attempted; linearity is measured in scanner calls and, for 19 shapes of one long token parsed at two lengths, in bytes allocated (time decides only above five seconds). The six nesting ladders are run once more at n = 2^20 in child processes, where five of them end in the recorded stack overflow.", "3/C04"),
  "C12": ("exhaustive enumeration of statements x deviation-bounded schemas against an independent expansion model",
          "Full product of 27 field forms x 7 GROUP BY forms x 11 source forms (measurements, lists, 1-2 level subqueries, unknown and empty measurements) x 2 conditions, under every schema within 1 (2) deviations of a base schema of three measurements with overlapping names and conflicting types; RewriteFields' result must equal the result of an expansion model written from the property text (matching columns sorted by name, types by precedence across sources, tags left out of calls and out of fields when grouped by, per-function type filters, untyped references typed), the receiver must be unchanged and 5 (13) repeated runs with fresh maps must agree.",
          "Independence from Go's map iteration order is decided by repetition, not enumeration (map order cannot be controlled without changing the runtime). The model is a re-implementation and was validated against the repository's own RewriteFields test table through the zero-violation run.", "3/C12"),
@@ -90,7 +90,7 @@ m = {
    {"name": "astx", "path": "harness/astx", "serves_properties": sorted(CHECKS), "kind_free_text": "reflection AST canonicaliser: dump, first-difference, hash, alias sets"},
  ],
  "checks": [],
- "notes": "All checks are bounded exhaustive enumeration run directly against the implementation built from /repo's working tree with -tags verif. Ledger of known findings: /verif/KNOWN_FINDINGS.txt.",
+ "notes": "All checks are bounded exhaustive enumeration run directly against the implementation built from /repo's working tree with -tags verif. Every check runs under a supervising parent process that turns a Go runtime fatal error raised while a goroutine is inside the library into a violation. The rule string in each evidence file states what the run enumerated, including the families added after the eight rounds of independently written changes (DESIGN.md sections 3 and 10). Ledger of known findings: /verif/KNOWN_FINDINGS.txt.",
  "not_applicable": [],
 }
 for cid in ALL:
